@@ -1,4 +1,5 @@
 import CorsVerif.Proofs.Pattern
+import CorsVerif.Proofs.Translated
 import CorsVerif.Spec.Fetch
 import CorsVerif.Spec.Denote
 import CorsVerif.Proofs.Accept
@@ -992,5 +993,18 @@ example : Net.ip6 (Spec.b "1::2::3") = none := by decide
 #print axioms C13_netip_hext
 #print axioms C13_accept_ipv6_canonical
 #print axioms C13_accepted_ipv6_form
+
+
+/-- **C13 (translated origin loop).** One iteration of the `for _, raw := range patterns` loop of `validateOrigins` — the `*`
+incompatibilities, `origins.ParsePattern` and its error, the insecure-origin and public-suffix guards with their tolerance
+switches (each reported, in the code's order, none skipping another), `tree.Insert` — is translated from /repo's config.go on
+every run and equals `Validate.originStep` for every loop state and element (whatever the IDNA / public-suffix oracles
+answer); hence the fold over any list of patterns is the model's. -/
+theorem C13_originLoop_translated (ext : Ext) (credentialed pnaAny tolInsecure tolPSL : Bool) (patterns : List Bytes) :
+    patterns.foldl (Gen.GoSrc.originStep ext credentialed pnaAny tolInsecure tolPSL) {} =
+      patterns.foldl (Validate.originStep ext credentialed pnaAny tolInsecure tolPSL) {} :=
+  Translated.originLoop_eq ext credentialed pnaAny tolInsecure tolPSL patterns
+
+#print axioms C13_originLoop_translated
 
 end Cors
